@@ -142,14 +142,34 @@ def hasAnyVVRow (s : Server) (d : DocId) : Bool :=
 def pushedCount (before after : Server) (d : DocId) : Nat :=
   (storedLog after d).length - (storedLog before d).length
 
+/-- ONE-LINE SWITCH.  `false` = tree before `hooks/fix-c05-snapshot-retry-applies-twice.patch`: `pullSnapshot`
+applies ALL changes of the request pack on top of the rebuilt document – also those an earlier request of this
+client had already stored before its response was lost (`pushPack` filtered them out, they are part of the rebuilt
+document): the snapshot the retrying client receives contains them twice (C05 finding) and the server document's
+clock ticks once more per duplicate.  `true` = tree with the fix: only the changes this request stored
+(`ClientSeq` above the checkpoint `pushPack` filtered with) are applied. -/
+def snapshotAppliesOnlyPushed : Bool := true
+
+/-- the changes of the request `pullSnapshot` applies to the rebuilt document; `cpSeq` = client sequence of the
+checkpoint the request was filtered with (`clientInfo.Checkpoint(docID)`: the stored one, `0` inside Attach) -/
+def appliedToSnapshot (cpSeq : Nat) (changes : List ChangeReq) : List ChangeReq :=
+  if snapshotAppliesOnlyPushed then changes.filter (isPushable cpSeq) else changes
+
+/-- the checkpoint client sequence a request of client `c` is filtered with -/
+def requestCpSeq (before : Server) (c : ClientId) (d : DocId) (isAttach : Bool) : Nat :=
+  if isAttach then 0
+  else match before.findClient c with
+    | some i => (i.checkpoint d).clientSeq
+    | none => 0
+
 /-- the snapshot branch of `preparePack` for an accepted request: rebuild at `initialServerSeq`
 (head after the push minus what was pushed) -/
 def pullSnapshotPart (sn : Snaps) (before after : Server) (d : DocId) (c : ClientId) (pack : Pack)
-    (disableGC : Bool) (resp : Resp) : Snaps × Option VV :=
+    (disableGC : Bool) (resp : Resp) (cpSeq : Nat := 0) : Snaps × Option VV :=
   if resp.snapshot then
     ((buildDoc sn (storedLog after d) (headOf after d - pushedCount before after d)).1,
      some (snapshotRespVV (buildDoc sn (storedLog after d) (headOf after d - pushedCount before after d)).2
-            pack.changes c disableGC))
+            (appliedToSnapshot cpSeq pack.changes) c disableGC))
   else (sn, none)
 
 /-- step 04 of `PushPull`: only when something was pushed (or the pack removes the document) -/
@@ -161,12 +181,12 @@ def backgroundPart (sn : Snaps) (before after : Server) (d : DocId) (isRemoved :
 /-- everything `PushPull` does to the snapshot store/cache for one request whose bookkeeping result
 (`after`, `r`) was computed by `Model/Server.lean`; returns the response vector of a snapshot response -/
 def finishRequest (interval : Int) (sn : Snaps) (before after : Server) (d : DocId) (c : ClientId)
-    (pack : Pack) (disableGC : Bool) (r : Except ErrKind Resp) : Snaps × Option VV :=
+    (pack : Pack) (disableGC : Bool) (r : Except ErrKind Resp) (cpSeq : Nat := 0) : Snaps × Option VV :=
   match r with
   | .error _ => (sn, none)
   | .ok resp =>
-    (backgroundPart (pullSnapshotPart sn before after d c pack disableGC resp).1 before after d pack.isRemoved interval,
-     (pullSnapshotPart sn before after d c pack disableGC resp).2)
+    (backgroundPart (pullSnapshotPart sn before after d c pack disableGC resp cpSeq).1 before after d pack.isRemoved interval,
+     (pullSnapshotPart sn before after d c pack disableGC resp cpSeq).2)
 
 /-! ### the client's side of a sync -/
 
